@@ -125,7 +125,7 @@ CHECKS = {
         "for all tables, sizes, magnitudes), C04_refuted_uncertified (the uncertified statement is false of the model; witness replayed on the code). "
         "Per run: kernel-checked model=implementation on conversions of the shipped table (1e-11) and of fresh synthetic exactly-consistent unit systems "
         "(bit-exact, with the hypotheses of C04_certified discharged by vm_compute on the exported table), certificate bit and diagnosis per case, exact "
-        "rational size oracle solved from the intercepted declarations.",
+        "rational size oracle solved from the intercepted declarations. C04_true_declarations_consistent / C04_certified_over_declared_tables (Proofs/DeclareConsistent.v): any history of declarations true of one size assignment builds a consistent table, so the certificate theorem applies to every table such a history builds.",
    note=TB + "Partial: the planner itself is not proved to emit only certifiable plans (it does not: known findings planner-sign-heuristic, "
         "planner-uncertified, keyed by the Coq diagnosis of the model's plan, and the inconsistent ton-of-refrigeration edge). On the shipped float table "
         "consistency holds only within the residuals C09 bounds; rounding is measured at 1e-11 against the exact model. Axioms: none.",
